@@ -108,8 +108,8 @@ func (b *ByteWrap[T]) UnmarshalCBORStream(r io.Reader, o DecoderOptions, flatten
 	if err != nil {
 		return err
 	}
-	if n > math.MaxInt64 {
-		return fmt.Errorf("bytewrap too long to decode")
+	if n >= MaxArrayDecodeLength {
+		return fmt.Errorf("bytewrap exceeds max size: %d", n)
 	}
 	lr := &io.LimitedReader{R: r, N: int64(n)}
 
@@ -161,6 +161,9 @@ func (c *X509Certificate) UnmarshalCBORStream(r io.Reader, o DecoderOptions, fla
 		return err
 	}
 
+	if n >= MaxArrayDecodeLength {
+		return fmt.Errorf("byte string exceeds max size: %d", n)
+	}
 	der := make([]byte, n)
 	if _, err := io.ReadFull(r, der); err != nil {
 		return err
@@ -201,6 +204,9 @@ func (c *X509CertificateRequest) UnmarshalCBORStream(r io.Reader, o DecoderOptio
 		return err
 	}
 
+	if n >= MaxArrayDecodeLength {
+		return fmt.Errorf("byte string exceeds max size: %d", n)
+	}
 	der := make([]byte, n)
 	if _, err := io.ReadFull(r, der); err != nil {
 		return err
